@@ -799,6 +799,23 @@ func genC11(cw *caseWriter, seed uint64, tier string) {
 			}
 		}
 	}
+	// column level, values STORED with Row.Set / SetAtIndex into a binary column of a fixed-width raw type: byte
+	// slices of every length 0-17, integers inside and outside the type's range, floats, booleans, texts
+	for _, ty := range fixedWidthTys {
+		k := 0
+		for n := 0; n <= 17; n++ {
+			b := make([]byte, n)
+			for j := range b {
+				b[j] = byte(1 + 7*j + n)
+			}
+			k++
+			emitSetCol(cw, "C11", "binary", ty, b, k%2 == 0)
+		}
+		for _, v := range []interface{}{int64(1) << 40, uint64(math.MaxUint64), int8(-1), 300, -129, 65536, 1.5, float32(2), true, "AQIDBA==", "12", json.Number("70000"), nil} {
+			k++
+			emitSetCol(cw, "C11", "binary", ty, v, k%2 == 0)
+		}
+	}
 	// every byte-slice length 0-17 for every fixed-width target; exhaustive contents for length <= 1,
 	// all 65536 two-byte contents in the thorough tier
 	for _, ty := range fixedWidthTys {
